@@ -37,9 +37,16 @@ def idx(v):
     return v[0] + 2 * v[1] + 4 * v[2] + 8 * v[3] + 16 * v[4]
 
 
-def opts_of(v):
+STEMS = ["prog", "my-prog", "a_b", "lunar-lander_x", "Z9"]   # file stems: letters, digits, '_' and '-' are kept as the procedure name
+
+
+def stem_of(pi):
+    return STEMS[pi % len(STEMS)]
+
+
+def opts_of(v, stem="prog"):
     return {"filter_unused_linenum": bool(v[0]), "initialize_vars": bool(v[1]), "default_width32": bool(v[2]),
-            "output_dependencies": bool(v[3]), "default_str_storage": 80 if v[4] else 32, "procname": "prog"}
+            "output_dependencies": bool(v[3]), "default_str_storage": 80 if v[4] else 32, "procname": stem}
 
 
 def flags_of(f):
@@ -74,11 +81,11 @@ def main():
     payload, where = [], []
     for pi, lines in enumerate(progs):
         for v in V:
-            payload.append({"src": "\n".join(lines), "opts": opts_of(v)})
+            payload.append({"src": "\n".join(lines), "opts": opts_of(v, stem_of(pi))})
             where.append((pi, v))
     res = common.run_real("w_convert", payload)
     ncli = len(progs) if thorough else 7
-    clip = [{"src": "\n".join(progs[pi]), "stem": "prog", "flags": flags_of(f)} for pi in range(ncli) for f in V]
+    clip = [{"src": "\n".join(progs[pi]), "stem": stem_of(pi), "flags": flags_of(f)} for pi in range(ncli) for f in V]
     cres = common.run_real("w_cli", clip)
     cases, meta = [], []
     for pi, lines in enumerate(progs):
@@ -100,7 +107,8 @@ def main():
                 text = bytes(r["bytes"]).decode("latin-1")
                 cl[idx(f)] = {"ix": [tab.add(t) for t in b09lex.lex_text(text.replace("\r", "\n"))], "lf": text.count("\n")}
             cli = cl
-        cases.append({"id": len(cases) + 1, "table": tab.lines, "outs": outs, "cli": cli, "hascli": hascli, "stem": "PROG"})
+        cases.append({"id": len(cases) + 1, "table": tab.lines, "outs": outs, "cli": cli, "hascli": hascli,
+                      "stem": [t["v"] for t in b09lex.lex_text("procedure " + stem_of(pi))[0][1:]]})
         meta.append(lines)
     r = rep.tlc(common.run_tlc("Trace_C11", env={"CASES": dump(wd, cases)}, wd=wd, timeout=3000))
     edges = 0
